@@ -364,6 +364,19 @@ func (r *Runner) seedPods(set string, o SetOpts) {
 			}
 		}
 	}
+	// a member at the very top of the ordinal range
+	if r.Cfg.Foreign && r.chance(0.04) {
+		ord := []int{2147483647, 2147483646, 100000}[r.Rng.Intn(3)]
+		po := PodOpts{Name: fmt.Sprintf("%s-%d", set, ord), Labels: labels, SetName: set, Ordinal: ord, Claims: o.Claims, Scheduled: true, Owner: SetOwnerRef(s)}
+		po.PodNameLbl = po.Name
+		po.Phase = []corev1.PodPhase{corev1.PodPending, corev1.PodRunning, corev1.PodFailed}[r.Rng.Intn(3)]
+		po.Ready = po.Phase == corev1.PodRunning && r.chance(0.5)
+		if len(revs) > 0 {
+			po.Revision, po.TemplateV = revs[0].Name, revs[0].V
+		}
+		w.Srv.Seed(simapi.Pods, NewPod(po))
+		r.logf("   pod %s phase=%s ready=%v (top of the ordinal range)", po.Name, po.Phase, po.Ready)
+	}
 	// strangers: unowned pods with the set's labels whose names only look like the set's pod names
 	if r.Cfg.Foreign && r.chance(0.15) {
 		for k := 0; k < 1+r.Rng.Intn(2); k++ {
